@@ -98,10 +98,35 @@ def check_refinement(ctx, old, res, new, logs, sig, uniform_k=None, marked=None,
                                  f'(of {len(exp)})', **sig)
                         break
         else:
-            # 3-D: no mesh class propagates boundaries; if one ever does, it must be right: measure test
+            # 3-D: the mesh classes drop boundaries (with a warning); whatever IS kept under a name must be right: the new facets
+            # under the name are exactly the facets lying inside the old facets of that name (planar faces only)
+            scale = 1.0 + np.abs(old.p).max()
+
+            def in_face(x, Q):
+                n = np.cross(Q[:, 1] - Q[:, 0], Q[:, 2] - Q[:, 0])
+                nn = np.linalg.norm(n)
+                if abs(n @ (x - Q[:, 0])) > 1e-9 * nn * scale:
+                    return False
+                k = Q.shape[1]
+                return all(np.cross(Q[:, (i + 1) % k] - Q[:, i], x - Q[:, i]) @ n >= -1e-9 * nn * nn for i in range(k))
+
+            def planar(Q):
+                if Q.shape[1] == 3:
+                    return True
+                n = np.cross(Q[:, 1] - Q[:, 0], Q[:, 2] - Q[:, 0])
+                return abs(n @ (Q[:, 3] - Q[:, 0])) <= 1e-9 * np.linalg.norm(n) * scale
             for name, (fix, ori) in obnd.items():
                 if name not in nb:
                     ctx.fail('boundary_names', name, **sig)
+                    break
+                faces = [old.p[:, old.facets[:, f]] for f in fix]
+                if not all(planar(Q) for Q in faces):
+                    continue
+                exp = {f for f in range(new.facets.shape[1])
+                       if any(all(in_face(new.p[:, v], Q) for v in new.facets[:, f]) for Q in faces)}
+                got = set(np.asarray(nb[name]).astype(np.int64).tolist())
+                if got != exp:
+                    ctx.fail('boundary_facets', f'{name}: {len(exp - got)} facets missing, {len(got - exp)} wrong (of {len(exp)})', **sig)
                     break
     elif new.boundaries:
         ctx.fail('boundaries_invented', '', **sig)
